@@ -7,6 +7,7 @@ from gvsim.sim import Raised
 PROP = 'C13'
 TIERS = {'quick': {'runs': 6000, 'wall': 100}, 'thorough': {'runs': 150000, 'wall': 1500}}
 CASES_PER_RUN = 40
+REACH = ['scripted_first', 'scripted_last', 'scripted_mixed']  # probes / faults that must fire in every batch (reach gaps are reported in the evidence)
 RULE = ('one run = 40 reset calls; each case = one of the eight built-in reset functions (registry or factory) with '
         'parameters drawn 70% from the region expected to be honoured and 30% from anywhere (shapes 1x1..14x14, layouts '
         '1..4, counts -1..cells+2, colour subsets with and without NONE), and a generator that is a real seeded '
